@@ -56,13 +56,13 @@ Section WithOracles.
   Qed.
 
   (* transport.write in closed form *)
-  Lemma write_eq line s :
-    write line s =
+  Lemma write_eq m s :
+    write_msg m s =
     (if hd false (s_faults s) then inr ETransport else inl tt,
      {| s_w := s_w s;
-        s_log := {| we_line := line; we_ok := negb (hd false (s_faults s)) |} :: s_log s;
+        s_log := {| we_line := encode m; we_ok := negb (hd false (s_faults s)); we_msg := m |} :: s_log s;
         s_faults := tl (s_faults s) |}).
-  Proof. unfold write. destruct (s_faults s) as [|[|] r]; reflexivity. Qed.
+  Proof. unfold write_msg. destruct (s_faults s) as [|[|] r]; reflexivity. Qed.
 
   Definition version_query_msg : msg := mk_msg 0 255 3 0 2 [].
 
@@ -79,13 +79,13 @@ Section WithOracles.
        s_log := s_log s; s_faults := s_faults s |}.
 
   (* an unbuffered send of an internal / set message is one write attempt *)
-  Lemma send_unbuffered_internal m s : m_cmd m = 3 -> send m false s = write (encode m) s.
+  Lemma send_unbuffered_internal m s : m_cmd m = 3 -> send m false s = write_msg m s.
   Proof. intros H. rewrite send_eq. unfold send_resolved. rewrite H. reflexivity. Qed.
 
-  Lemma send_unbuffered_set m s : m_cmd m = 1 -> send m false s = write (encode m) s.
+  Lemma send_unbuffered_set m s : m_cmd m = 1 -> send m false s = write_msg m s.
   Proof.
     intros H. rewrite send_eq. unfold send_resolved, send_set_direct, bind, ret. rewrite H. cbn [Z.eqb Pos.eqb andb].
-    destruct (dget Z.eqb (w_nodes (s_w s)) (m_node m)); destruct (write (encode m) s) as [[[]|e] s']; reflexivity.
+    destruct (dget Z.eqb (w_nodes (s_w s)) (m_node m)); destruct (write_msg m s) as [[[]|e] s']; reflexivity.
   Qed.
 
   (* handle_missing_protocol_version in closed form: run the handler, then (finally)
@@ -99,7 +99,7 @@ Section WithOracles.
     | Some _ => (r, s')
     | None =>
         if wants_version_query m then
-          match write (encode version_query_msg) s' with
+          match write_msg version_query_msg s' with
           | (inl _, s'') => (r, s'')
           | (inr e, s'') => (inr e, s'')
           end
@@ -117,7 +117,7 @@ Section WithOracles.
     destruct (negb (m_cmd m =? 3) || negb ((m_type m =? 9) || (m_type m =? 14))).
     - rewrite send_unbuffered_internal by reflexivity. rewrite system_child_id_is.
       change (mk_msg 0 255 3 0 2 []) with version_query_msg.
-      destruct (write (encode version_query_msg) s') as [[[]|e] s'']; reflexivity.
+      destruct (write_msg version_query_msg s') as [[[]|e] s'']; reflexivity.
     - reflexivity.
   Qed.
 
@@ -132,7 +132,7 @@ Section WithOracles.
     if 254 <? nxt then (inr ETooManyNodes, s)
     else
       let s1 := with_nodes s (dset Z.eqb (w_nodes (s_w s)) nxt (new_node nxt 17 default_protocol_version)) in
-      match write (encode (id_response m nxt)) s1 with
+      match write_msg (id_response m nxt) s1 with
       | (inl _, s2) => (inl m, s2)
       | (inr e, s2) => (inr e, s2)
       end.
@@ -145,7 +145,7 @@ Section WithOracles.
     unfold set_nodes, modify_w. cbn beta iota.
     rewrite send_unbuffered_internal by exact Hk.
     unfold id_response, with_nodes.
-    match goal with |- match write ?l ?x with _ => _ end = match write ?l' ?x' with _ => _ end =>
+    match goal with |- match write_msg ?l ?x with _ => _ end = match write_msg ?l' ?x' with _ => _ end =>
       change x with x'; change l with l' end.
     match goal with |- match ?x with _ => _ end = _ => destruct x as [[[]|e] s2] end; reflexivity.
   Qed.
@@ -231,7 +231,7 @@ Section WithOracles.
     match es with
     | [] => []
     | e :: r =>
-        {| we_line := encode (snd e); we_ok := negb (hd false faults) |}
+        {| we_line := encode (snd e); we_ok := negb (hd false faults); we_msg := snd e |}
         :: (if hd false faults then [] else log_of r (tl faults))
     end.
 
@@ -550,7 +550,7 @@ Section WithOracles.
     if dmem key_eqb (w_internal (s_w s)) (pres_key (m_node m))
     then (inr e, with_internal s (dset key_eqb (w_internal (s_w s)) (pres_key (m_node m)) pm))
     else
-      match write (encode pm) s with
+      match write_msg pm s with
       | (inl _, s1) => (inr e, with_internal s1 (dset key_eqb (w_internal (s_w s1)) (pres_key (m_node m)) pm))
       | (inr e', s1) => (inr e', s1)
       end.
@@ -563,7 +563,7 @@ Section WithOracles.
     destruct (dmem key_eqb (w_internal (s_w s)) (pres_key (m_node m))).
     - rewrite send_eq. reflexivity.
     - rewrite send_unbuffered_internal by reflexivity.
-      destruct (write (encode (pres_request (m_node m))) s) as [[[]|e'] s1]; [|reflexivity].
+      destruct (write_msg (pres_request (m_node m)) s) as [[[]|e'] s1]; [|reflexivity].
       rewrite send_eq. reflexivity.
   Qed.
 
@@ -609,7 +609,7 @@ Section WithOracles.
   (* ---------- C12: the three ways a send can end ---------- *)
 
   Inductive send_end (m : msg) (w : world) (r : world * outcome * list wevent) : Prop :=
-  | SendWritten : snd (fst r) = Done -> snd r = [{| we_line := encode m; we_ok := true |}] -> send_end m w r
+  | SendWritten : snd (fst r) = Done -> snd r = [{| we_line := encode m; we_ok := true; we_msg := m |}] -> send_end m w r
   | SendHeld n : snd (fst r) = Done -> snd r = [] -> m_cmd m = 1 ->
                  dget Z.eqb (w_nodes w) (m_node m) = Some n -> n_sleeping n = true ->
                  dget key_eqb (w_set (fst (fst r))) (msg_key m) = Some m -> send_end m w r
@@ -658,7 +658,7 @@ Section WithOracles.
   (* ---------- C06 / C04: handler bodies in closed form ---------- *)
 
   Definition reply (m : msg) (pm : msg) (s : st) : (msg + exn) * st :=
-    match write (encode pm) s with
+    match write_msg pm s with
     | (inl _, s1) => (inl m, s1)
     | (inr e, s1) => (inr e, s1)
     end.
